@@ -459,11 +459,11 @@ theorem c11_ffno_c (hw : WFW c cu w) (ch : Byte) (p : Option Nat) : C11Holds c c
 
 /-! ### the backward searches -/
 
-theorem w4_rpos_dom {p : Option Nat} {n big : Nat} (h : (p == none || decide (p.getD 0 < n)) = true) :
+theorem w4_rpos_dom {p : Option Nat} {n big : Nat} (h : (p.getD big == big || decide (p.getD big < n)) = true) :
     p.getD big = big ∨ p.getD big < n := by
-  cases p with
-  | none => exact Or.inl rfl
-  | some q => right; simpa using h
+  rcases Bool.or_eq_true _ _ |>.mp h with h | h
+  · exact Or.inl (beq_iff_eq.mp h)
+  · exact Or.inr (of_decide_eq_true h)
 
 theorem c11_rfind_f (hc : CfgOK c) (hw : WFW c cu w) (p : Option Nat)
     (hd : inDomain (npos c) w (.search .rfind (.f p)) = true) : C11Holds c cu w (.search .rfind (.f p)) := by
@@ -522,18 +522,15 @@ theorem c11_rfind_c (hc : CfgOK c) (hw : WFW c cu w) (ch : Byte) (p : Option Nat
   obtain ⟨r, h1, rfl, rfl⟩ := obs_inv h
   simp only [searchStep] at h1
   simp only [inDomain, needleText, Bool.and_eq_true] at hd
-  have hch : ch ≠ 0 := bne_iff_ne.mp hd.2.1.1
-  have hp := w4_rpos_dom (big := npos c) hd.2.1.2
+  have hp := w4_rpos_dom (big := npos c) hd.2
   rw [abs_length hw.1] at hp
-  rw [rfindCh_abs hc hw.1 ch hch hp] at h1; cases h1
+  rw [rfindCh_abs hc hw.1 ch hp] at h1; cases h1
   exact c11_obs hw.1 (by simp only [spec, needleText, needlePos])
 
 
 theorem w4_lpos_dom {p : Option Nat} {n big : Nat}
-    (h : (p == none || decide (p.getD 0 < n) && p.getD 0 != big) = true) : p.getD big = big ∨ p.getD big < n := by
-  cases p with
-  | none => exact Or.inl rfl
-  | some q => right; simp at h; exact h.1
+    (h : (p.getD big == big || decide (p.getD big < n)) = true) : p.getD big = big ∨ p.getD big < n :=
+  w4_rpos_dom h
 
 theorem c11_flo_f (hc : CfgOK c) (hw : WFW c cu w) (p : Option Nat)
     (hd : inDomain (npos c) w (.search .flo (.f p)) = true) : C11Holds c cu w (.search .flo (.f p)) := by
